@@ -2,7 +2,9 @@
 MC: WorkDigest.tla (guarantor refining items one by one: digest fields, declared export counts, specification).
 G: WorkDigest_Gen (items with 0..16 imports / 0..16 extrinsics incl. lengths 0 and > 2^16, export counts, every
    outcome; bundle lengths x export-segment sequences) with hash terms for H(payload) and M(exports).
-X: harness/workdigest calls work_package.C and work_package.A (erasure stand-in linked; erasure root ignored).
+   Extension: whole report computations (Xi) with scripted refinement outcomes per item.
+X: harness/workdigest calls work_package.C, work_package.A and WorkReportCompute with a scripted PVMExecutor
+   (erasure stand-in linked; erasure root ignored).
 V: WorkDigest_Trace compares field by field."""
 import concurrent.futures as cf
 import json
@@ -18,7 +20,8 @@ FILES = {
 def run(ctx):
     ctx.assumptions += ["Gray Paper 14.8 / 14.16 as transcribed in spec/stf/WorkDigestDefs.tla (e of the refine load is the item's declared export count w_e)",
                         "BLAKE2b-256 trusted (hash terms evaluated by the generic evaluator); the erasure root is not judged (pkg/erasure_coding is a stand-in, C30 not applicable)",
-                        "bundles are non-empty (the stand-in encoder rejects empty input)"]
+                        "bundles are non-empty (the stand-in encoder rejects empty input)",
+                        "in report computations the result of a failed item is only required to be an error (order of the 14.11 tests not settled by the statement)"]
     consts = {"MaxItems": "2", "Lens": "{65537}", "MaxE": "1", "MaxExt": "1"} if ctx.quick else \
              {"MaxItems": "2", "Lens": "{0, 65537}", "MaxE": "1", "MaxExt": "2"}
     jobs = [lambda: vf.mc(ctx, "MC_WorkDigest", vf.cfg_text(constants=consts, invariants=["InvDigests", "InvSegments", "InvSpec", "InvRootSensitive"]),
@@ -45,14 +48,15 @@ def run(ctx):
     nt, samples = 0, []
     for ln in lines:
         r = json.loads(ln)
-        if r["ev"] == "C" and (r["item"]["ni"] or r["item"]["ext"]) or r["ev"] == "A" and r["nseg"] > 0:
+        if r["ev"] == "C" and (r["item"]["ni"] or r["item"]["ext"]) or r["ev"] == "A" and r["nseg"] > 0 or r["ev"] == "Xi":
             nt += 1
         if len(samples) < 3 and r["ev"] == "C" and r["item"]["ext"]:
             samples.append(r)
     ctx.cov["distinct_nontrivial"] = nt
     ctx.cov["rule"] = ("records = C(item, outcome, gas) for items with 0..16 imports x 0..16 extrinsics (lengths 0..2^24+3), ten export counts, nine outcomes, "
-                       "six gas values, and A(hash, bundle, segments) for bundle lengths 1..300001 x export-segment sequences; "
-                       "non-trivial = items with at least one import or extrinsic, specifications with at least one export")
+                       "six gas values, A(hash, bundle, segments) for bundle lengths 1..300001 x export-segment sequences, and WorkReportCompute over packages of "
+                       "1..4/6 items with scripted outcomes (ok / failed / wrong export count); "
+                       "non-trivial = items with at least one import or extrinsic, specifications with at least one export, all report computations")
     ctx.cov["samples"] = samples
     vf.validate_trace(ctx, "WorkDigest_Trace", lines, shard=150 if ctx.quick else 400, what="work digest / package specification differs from the specification",
                       timeout=1500, par=6 if ctx.quick else 12)
